@@ -9,7 +9,7 @@ Local Open Scope list_scope.
 Local Open Scope N_scope.
 
 Theorem C09_invariant_reachable : forall c clock s r ops, server_new c clock = (s, r) -> Inv (server_run s ops).
-Proof. intros c clock s r ops H. apply Inv_reachable. exact (Inv_new c clock s r H). Qed.
+Proof. exact Inv_from_new. Qed.
 
 (* publish is surfaced only on an accepted connection, with a fresh request id that becomes outstanding *)
 Theorem C09_publish_gate : forall s sid tr args clock s' rs,
